@@ -144,7 +144,7 @@ def main(ctx: Ctx):
         ctx.cov["exhaustive_space"] = "all matrices with entries in {-1,0,1} up to 3x3"
     for k, J in enumerate(small):
         one_matrix(ctx, J, to_tensor(J, torch.float64), torch.float64, "small{-1,0,1}", cheap_only=(k % 10 != 0))
-    for i in range(150 if quick else 6000):
+    for i in range(150 if quick else 30000):
         m, n = rng.choice([2, 2, 3, 4, 5]), rng.choice([1, 2, 3, 5, 8])
         dtype = torch.float64 if i % 2 else torch.float32
         r = rng.random()
